@@ -39,6 +39,13 @@ for spec in cfg["arrays"]:
         mm[...] = a
         mm.flush()
         a = mm if not spec.get("mm_slice") else mm[1:] if a.ndim and a.shape[0] > 1 else mm
+        v = spec.get("mm_view")
+        if v and a.ndim:
+            # views on the file-backed array: what the task must see is what the parent sees
+            a = {"T": lambda: a.T, "rev": lambda: a[::-1], "rev-last": lambda: a[..., ::-1], "step": lambda: a[::2],
+                 "inner": lambda: a[1:, 1:] if a.ndim >= 2 else a[1:], "swap": lambda: a.swapaxes(0, -1),
+                 "plain-ndarray": lambda: np.asarray(a), "plain-ndarray-T": lambda: np.asarray(a).T,
+                 "rev-all": lambda: a[(slice(None, None, -1),) * a.ndim], "newaxis": lambda: a[None]}[v]()
     size = a.nbytes
     mx = spec["max_nbytes"]
     max_nbytes = {"none": None, "size-1": max(size - 1, 0), "size": size, "size+1": size + 1, "1K": "1K", "0": 0}[mx]
